@@ -323,3 +323,47 @@ fn verif_native_c13_conventions() {
     println!("VERIF-NATIVE id=C13.N.conventions evaluated={n}");
     assert!(fails.is_empty(), "C13.N.conventions: FAILSET{{{}}} {} of {} relations fail, first: {:?}", ids.join(","), fails.len(), n, &fails[..fails.len().min(8)]);
 }
+
+
+//@n {"id":"C07.N.molodensky","props":["C07","C14"],"tier":"quick","bound":"molodensky (full and abridged) vs `cart ellps=WGS84 | helmert x y z | cart inv ellps=intl` on a 13x13 lattice (|lat| <= 75) x heights {0, 100, 1000, 4000, 10000} m x 2 translation sets, both directions","text":"molodensky agrees with the cartesian three-parameter Helmert path it approximates to within the accuracy of a first-order method: 1 cm + 1.5 shift^2/R for the full formulas at all heights up to 10 km, plus 2.5 shift h/R for the abridged ones (which neglect the height)"}
+#[test]
+fn verif_native_c07_molodensky() {
+    let mut ctx = Minimal::default();
+    let mut fails = Vec::new();
+    let mut n = 0;
+    for (dx, dy, dz) in [(84.87, 96.49, 116.95), (-148.0, 507.0, 685.0)] {
+        let exact = ctx.op(&format!("cart ellps=WGS84 | helmert x={dx} y={dy} z={dz} | cart inv ellps=intl")).unwrap();
+        for abridged in [false, true] {
+            let op = ctx.op(&format!("molodensky ellps_0=WGS84 ellps_1=intl dx={dx} dy={dy} dz={dz}{}", if abridged { " abridged" } else { "" })).unwrap();
+            for dir in [Fwd, Inv] {
+                let d = if dir == Fwd { "fwd" } else { "inv" };
+                let mut worst = (0.0f64, String::new());
+                for i in 0..=12 {
+                    for j in 0..=12 {
+                        for h in [0.0, 100.0, 1000.0, 4000.0, 10000.0] {
+                            let (lon, lat) = ((-170.0 + 28.0 * i as f64).to_radians(), (-75.0 + 12.5 * j as f64).to_radians());
+                            let mut a = [Coor4D([lon, lat, h, 0.0])];
+                            let mut b = a;
+                            ctx.apply(op, if d == "fwd" { Fwd } else { Inv }, &mut a).unwrap();
+                            ctx.apply(exact, if d == "fwd" { Fwd } else { Inv }, &mut b).unwrap();
+                            n += 1;
+                            let plane = (((a[0][0] - b[0][0]) * lat.cos()).powi(2) + (a[0][1] - b[0][1]).powi(2)).sqrt() * 6.4e6;
+                            let vert = (a[0][2] - b[0][2]).abs();
+                            // first-order method: truncation error ~ shift^2 / R; the abridged formulas additionally neglect h: ~ shift * h / R
+                            let shift = (dx * dx + dy * dy + dz * dz).sqrt();
+                            let tol = 0.01 + 1.5 * shift * shift / 6.4e6 + if abridged { 2.5 * shift * h / 6.4e6 } else { 0.0 };
+                            let e = plane.max(vert) - tol;
+                            if e > worst.0 {
+                                worst = (e, format!("lat {:.1} lon {:.1} h {h}: plane {plane:.4} m, height {vert:.4} m (tolerance {tol:.3})", lat.to_degrees(), lon.to_degrees()));
+                            }
+                        }
+                    }
+                }
+                if worst.0 > 0.0 {
+                    fails.push(format!("molodensky{} dx={dx} {d}: {}", if abridged { " abridged" } else { "" }, worst.1));
+                }
+            }
+        }
+    }
+    assert!(fails.is_empty(), "C07.N.molodensky: {} of 8 operator/direction pairs exceed the tolerance over {} evaluations: {:?}", fails.len(), n, fails);
+}
